@@ -333,7 +333,7 @@ func main() {
 	r = explore.Start("C07")
 	nProf := 1 << (refterm.NumGatingCaps + 2)
 	if r.Replay != "" {
-		r.Fault("replay: re-run the profile named in the replay file (detail.profile); not implemented")
+		r.ReplayBySearch()
 	}
 	if idx, n, arg, ok := r.Worker(); ok {
 		r.Watchdog(60 * time.Second)
